@@ -14,8 +14,9 @@ Local Open Scope Z_scope.
 Inductive iout := IOk (v : value) | IErr | IPanic.
 
 Inductive case :=
-| CRound (k : rkind) (x : value) (p : option value) (pe : Z) (pw : spec_float) (r : iout)
-    (* pe: the precision used (0 when defaulted or not an integer), pw: the implementation's 10f64.powf(pe as f64) *)
+| CRound (k : rkind) (x : value) (p : option value) (pe : Z) (pw : spec_float) (cls : option rclass) (r : iout)
+    (* pe: the precision used (0 when defaulted or not an integer), pw: the implementation's 10f64.powf(pe as f64),
+       cls: the regime the Python side (props/C29.py, used by its known-finding matcher) computed for a finite float x *)
 | CAbs (x : value) (r : iout)
 | CMod (x y : value) (r : iout)
 | CToInt (x : value) (r : iout)
@@ -56,7 +57,12 @@ Definition is_ok_bytes (r : iout) : bool := match r with IOk (VBytes _) => true 
 
 Definition check (c : case) : bool :=
   match c with
-  | CRound k x p pe pw r => res_is (round_fn (fun _ => pw) k x p) r && pow10_faithful pe pw
+  | CRound k x p pe pw cls r =>
+      res_is (round_fn (fun _ => pw) k x p) r && pow10_faithful pe pw
+      && match cls, x with
+         | Some c, VFloat f => rclass_eqb (round_class k f pe pw) c      (* the matcher's classes are the model's *)
+         | _, _ => true
+         end
   | CAbs x r => res_is (abs_fn x) r
   | CMod x y r => res_is (mod_fn x y) r
   | CToInt x r => res_is (to_int x) r
@@ -83,42 +89,6 @@ Definition check (c : case) : bool :=
       && res_is (to_int (VFloat f)) ti
       && res_is (on_ok ti to_float) tfi
   end.
-
-(* ---------- exact arithmetic on finite binary64 values ---------- *)
-
-(* a finite float as (M, E): value M * 2^E *)
-Definition sf_ME (f : spec_float) : Z * Z :=
-  match f with
-  | S754_finite s m e => (cond_Zopp s (Zpos m), e)
-  | _ => (0, 0)
-  end.
-
-(* both at the smaller exponent *)
-Definition common (x y : spec_float) : Z * Z * Z :=
-  let '(mx, ex) := sf_ME x in
-  let '(my, ey) := sf_ME y in
-  let e := Z.min ex ey in
-  (mx * 2 ^ (ex - e), my * 2 ^ (ey - e), e).
-
-Definition f_leq (x y : spec_float) : bool := let '(a, b, _) := common x y in a <=? b.
-
-Definition clamp400 (p : Z) : Z := Z.max (-400) (Z.min 400 p).
-
-(* |x - y| <= 10^-p + ulp(y)/2, exactly: y is within half a unit in its last place (the unavoidable representation
-   error of a binary64 result: floor(-1e-76, 2) = -0.01, and the double nearest to -0.01 is 2e-19 beyond it) of a real
-   number that is within 10^-p of x.  Differences of binary64 numbers are multiples of 2^-1074 > 10^-400 and smaller
-   than 2^1025 < 10^400, so clamping p to [-400, 400] does not change the answer. *)
-Definition within_pow10 (x y : spec_float) (p : Z) : bool :=
-  let '(a, b, e) := common x y in
-  let p := clamp400 p in
-  let half_ulp2 := match y with S754_finite _ _ ey => 2 ^ (ey - e) | _ => 0 end in    (* 2 * (ulp(y)/2) / 2^e *)
-  let num := (2 * Z.abs (a - b) - half_ulp2) * (if 0 <=? e then 2 ^ e else 1) * (if 0 <=? p then 10 ^ p else 1) in
-  let den := 2 * (if 0 <=? e then 1 else 2 ^ (- e)) * (if 0 <=? p then 1 else 10 ^ (- p)) in
-  num <=? den.
-
-Definition round_law (k : rkind) (x y : spec_float) (p : Z) : bool :=
-  f_is_finite y && within_pow10 x y p
-  && match k with KCeil => f_leq x y | KFloor => f_leq y x | KRound => true end.
 
 (* truncated-remainder rules on finite floats: |r| < |y|, r is zero or has the sign of x, x - r is a multiple of y *)
 Definition frem_law (x y r : spec_float) : bool :=
@@ -148,7 +118,7 @@ Definition small_integral (f : spec_float) : bool :=
 
 Definition oracle (c : case) : bool :=
   match c with
-  | CRound k x p pe pw r =>
+  | CRound k x p pe pw _ r =>
       match p with
       | None | Some (VInt _) =>
           match x with
@@ -219,7 +189,7 @@ Definition model_res (m : res value) : iout + bool :=
 
 Definition model_out (c : case) : list (iout + bool) :=
   match c with
-  | CRound k x p pe pw r => [model_res (round_fn (fun _ => pw) k x p); inr (pow10_faithful pe pw)]
+  | CRound k x p pe pw _ r => [model_res (round_fn (fun _ => pw) k x p); inr (pow10_faithful pe pw)]
   | CAbs x r => [model_res (abs_fn x)]
   | CMod x y r => [model_res (mod_fn x y)]
   | CToInt x r => [model_res (to_int x)]
